@@ -37,9 +37,9 @@ bool tagUnitsMatchRefsUnits::operator()(const std::vector<DataArray> &references
                         match = match && util::isScalable(tu, du); 
                     }
                 }
-            } else {
-                match = !tu.empty() || tu != "none";
             }
+            // a tag unit beyond the reference's dimensions has nothing to be compared
+            // with; it must not hide a mismatch found in an earlier dimension
         }
         if (!match)
             break;
